@@ -948,3 +948,225 @@ Proof.
   exists [(7%N, [bump]); (7%N, [bump])], [0%nat; 1%nat], [1%nat; 0%nat].
   cbn. repeat split; try (repeat constructor); congruence.
 Qed.
+
+(* ================================================================== *)
+(** * I. shared state that is written: benign steps, memo caches *)
+Section BenignProofs.
+  Context {G C : Type}.
+  Variable I : G -> Prop.
+  Notation step := (@step G C).
+  Notation threads := (@threads G C).
+
+  Lemma run_alone_benign (p : list step) : Forall (benign I) p ->
+    forall g c, I g ->
+      I (fst (run_alone p g c)) /\ forall g', I g' -> snd (run_alone p g' c) = snd (run_alone p g c).
+  Proof.
+    unfold run_alone. induction p as [|s r IH]; intros Hb g c Hg; cbn [fold_left fst snd].
+    - split; auto.
+    - inversion Hb as [|? ? Hs Hr]; subst.
+      destruct (Hs g c Hg) as [Hi Heq].
+      destruct (s g c) as [g1 c1] eqn:E. cbn [fst snd] in *.
+      destruct (IH Hr g1 c1 Hi) as [Hi' Heq'].
+      split; [exact Hi'|].
+      intros g' Hg'. destruct (s g' c) as [g2 c2] eqn:E2.
+      specialize (Heq g' Hg'). rewrite E2 in Heq. cbn [snd] in Heq. subst c2.
+      destruct (Hs g' c Hg') as [Hi2 _]. rewrite E2 in Hi2. cbn [fst] in Hi2.
+      cbn [fst snd]. now apply Heq'.
+  Qed.
+
+  Definition all_benign (progs : list (C * list step)) : Prop :=
+    Forall (fun p => Forall (benign I) (snd p)) progs.
+
+  Definition bthread_inv (g0 : G) (init : C * list step) (dn : list step) (t : C * list step) : Prop :=
+    dn ++ snd t = snd init /\ fst t = snd (run_alone dn g0 (fst init)).
+
+  Inductive binv (g0 : G) : list (C * list step) -> list (list step) -> threads -> Prop :=
+  | binv_nil : binv g0 [] [] []
+  | binv_cons i d t is_ ds ts : bthread_inv g0 i d t -> binv g0 is_ ds ts -> binv g0 (i :: is_) (d :: ds) (t :: ts).
+
+  Lemma fire_binv g0 progs : I g0 -> all_benign progs ->
+    forall i g ds ts, I g -> binv g0 progs ds ts ->
+    exists ds', I (fst (fire i g ts)) /\ binv g0 progs ds' (snd (fire i g ts)).
+  Proof.
+    intros Hg0 Hb i g ds ts Hg Hinv. revert i. induction Hinv as [|p d t ps ds ts Ht Hinv IH]; intros i.
+    - exists []. destruct i; cbn; split; auto; constructor.
+    - inversion Hb as [|? ? Hp Hps]; subst. destruct i as [|j].
+      + destruct t as [c [|s r]].
+        * exists (d :: ds). cbn. split; [assumption|]. now constructor.
+        * cbn [fire]. destruct (s g c) as [g' c'] eqn:E. cbn [fst snd].
+          destruct Ht as [Happ Hc]. cbn [fst snd] in *.
+          assert (Hs : benign I s).
+          { rewrite Forall_forall in Hp. apply Hp. rewrite <- Happ. apply in_or_app. right. now left. }
+          assert (Hd : Forall (benign I) d).
+          { rewrite Forall_forall in *. intros x Hx. apply Hp. rewrite <- Happ. apply in_or_app. now left. }
+          destruct (Hs g c Hg) as [Hi' Heq]. rewrite E in Hi'. cbn [fst] in Hi'.
+          exists ((d ++ [s]) :: ds). split; [exact Hi'|]. constructor; [|assumption].
+          split; cbn [fst snd].
+          -- now rewrite <- app_assoc.
+          -- rewrite run_alone_app. unfold run_alone at 1. cbn [fold_left fst snd].
+             destruct (run_alone_benign d Hd g0 (fst p) Hg0) as [Hgd _].
+             rewrite <- Hc.
+             specialize (Heq _ Hgd). rewrite Heq, E. reflexivity.
+      + specialize (IH Hps j). destruct IH as [ds' [Hf Hi]].
+        destruct t as [c q]. cbn [fire].
+        destruct q; destruct (fire j g ts) as [g' ts'] eqn:Ef; cbn [fst snd] in *;
+          exists (d :: ds'); (split; [assumption|now constructor]).
+  Qed.
+
+  Lemma exec_binv g0 progs : I g0 -> all_benign progs ->
+    forall sched g ds ts, I g -> binv g0 progs ds ts ->
+    exists ds', I (fst (exec sched g ts)) /\ binv g0 progs ds' (snd (exec sched g ts)).
+  Proof.
+    intros Hg0 Hb sched. induction sched as [|i r IH]; intros g ds ts Hg Hinv; cbn [exec].
+    - exists ds. auto.
+    - destruct (fire_binv g0 progs Hg0 Hb i g ds ts Hg Hinv) as [ds' [Hf Hi]].
+      destruct (fire i g ts) as [g1 ts1]. cbn [fst snd] in *. apply (IH g1 ds'); assumption.
+  Qed.
+
+  Lemma binv_start g0 progs : binv g0 progs (map (fun _ => []) progs) (start progs).
+  Proof.
+    unfold start. induction progs as [|p r IH]; cbn; constructor; auto.
+    split; reflexivity.
+  Qed.
+
+  Lemma binv_finished g0 progs ds ts : binv g0 progs ds ts -> finished ts ->
+    map fst ts = map (fun p => snd (run_alone (snd p) g0 (fst p))) progs.
+  Proof.
+    induction 1 as [|p d t ps ds ts [Happ Hc] Hinv IH]; intros Hfin; [reflexivity|].
+    inversion Hfin as [|? ? Ht Hts]; subst. cbn [map]. f_equal; [|auto].
+    rewrite Ht, app_nil_r in Happ. now subst d.
+  Qed.
+
+  (* NON-INTERFERENCE WITH A BENIGN SHARED STATE: the renders may write the
+     shared state (a cache), every step keeps the invariant and computes the
+     same thing from any state satisfying it.  Then under EVERY schedule the
+     invariant holds at the end and each finished render has the context it
+     obtains alone -- alone from the initial state g0 or from ANY other state
+     g1 satisfying the invariant (a fresh process: the empty cache) *)
+  Theorem benign_noninterference (g0 g1 : G) (progs : list (C * list step)) (sched : list nat) :
+    I g0 -> I g1 -> all_benign progs ->
+    let '(g, ts) := exec sched g0 (start progs) in
+    I g /\
+    (finished ts -> map fst ts = map (fun p => snd (run_alone (snd p) g1 (fst p))) progs).
+  Proof.
+    intros Hg0 Hg1 Hb. destruct (exec sched g0 (start progs)) as [g ts] eqn:E.
+    destruct (exec_binv g0 progs Hg0 Hb sched g0 _ _ Hg0 (binv_start g0 progs)) as [ds' [Hg Hi]].
+    rewrite E in Hg, Hi. cbn [fst snd] in *. split; [exact Hg|].
+    intros Hfin. rewrite (binv_finished g0 progs ds' ts Hi Hfin).
+    apply map_ext_in. intros [c p] Hin. cbn [fst snd].
+    unfold all_benign in Hb. rewrite Forall_forall in Hb. specialize (Hb _ Hin). cbn [snd] in Hb.
+    destruct (run_alone_benign p Hb g1 c Hg1) as [_ Heq]. now apply Heq.
+  Qed.
+
+  Theorem benign_sequential_is_alone (g0 g1 : G) (progs : list (C * list step)) :
+    I g0 -> I g1 -> all_benign progs ->
+    I (fst (run_sequentially g0 progs)) /\
+    snd (run_sequentially g0 progs) = map (fun p => snd (run_alone (snd p) g1 (fst p))) progs.
+  Proof.
+    intros Hg0 Hg1 Hb. revert g0 Hg0. induction progs as [|[c p] r IH]; intros g0 Hg0; [split; auto|].
+    inversion Hb as [|? ? Hp Hr]; subst. cbn [run_sequentially map fst snd] in *.
+    destruct (run_alone_benign p Hp g0 c Hg0) as [Hi Heq].
+    destruct (run_alone p g0 c) as [g' c'] eqn:E. cbn [fst snd] in *.
+    destruct (IH Hr g' Hi) as [Hi2 Hs].
+    destruct (run_sequentially g' r) as [g'' cs] eqn:E2. cbn [fst snd] in *. split; [exact Hi2|].
+    f_equal; [|exact Hs]. specialize (Heq g1 Hg1). now rewrite Heq.
+  Qed.
+End BenignProofs.
+
+Section MemoProofs.
+  Context {K V C : Type}.
+  Variable keqb : K -> K -> bool.
+  Hypothesis keqb_eq : forall a b, keqb a b = true <-> a = b.
+  Variable f : K -> V.
+
+  Lemma cache_ok_nil : cache_ok keqb f [].
+  Proof. intros k v H. discriminate. Qed.
+
+  (* a step that goes through the memo cache is benign for "every cached value
+     is the value of the pure function": it computes use (f k) whatever the
+     cache holds, and a miss stores f k *)
+  Theorem memo_step_benign (k : K) (use : V -> C -> C) :
+    benign (cache_ok keqb f) (@memo_step K V C keqb f k use).
+  Proof.
+    assert (Hval : forall g c, cache_ok keqb f g -> snd (memo_step keqb f k use g c) = use (f k) c).
+    { intros g c Hg. unfold memo_step. destruct (mlookup keqb g k) as [v|] eqn:E; cbn [snd]; [|reflexivity].
+      now rewrite (Hg k v E). }
+    intros g c Hg. split.
+    - unfold memo_step. destruct (mlookup keqb g k) as [v|] eqn:E; cbn [fst]; [exact Hg|].
+      intros k' v' H. cbn [mlookup] in H. destruct (keqb k k') eqn:Ek.
+      + apply keqb_eq in Ek. subst k'. now injection H as <-.
+      + now apply Hg.
+    - intros g' Hg'. now rewrite !Hval.
+  Qed.
+End MemoProofs.
+
+Section MemoTransparent.
+  Context {K V C : Type}.
+  Variable keqb : K -> K -> bool.
+  Hypothesis keqb_eq : forall a b, keqb a b = true <-> a = b.
+  Variable f : K -> V.
+  Lemma run_alone_memo (kus : list (K * (V -> C -> C))) : forall (g : @mcache K V) (c : C), cache_ok keqb f g ->
+    snd (run_alone (map (fun ku => memo_step keqb f (fst ku) (snd ku)) kus) g c)
+    = fold_left (fun c ku => snd ku (f (fst ku)) c) kus c.
+  Proof.
+    unfold run_alone. induction kus as [|[k u] r IH]; intros g c Hg; [reflexivity|].
+    cbn [map fold_left fst snd].
+    destruct (memo_step_benign keqb keqb_eq f k u g c Hg) as [Hi _].
+    assert (Hv : snd (memo_step keqb f k u g c) = u (f k) c).
+    { unfold memo_step. destruct (mlookup keqb g k) as [v|] eqn:E; cbn [snd]; [|reflexivity]. now rewrite (Hg k v E). }
+    destruct (memo_step keqb f k u g c) as [g1 c1]. cbn [fst snd] in *. subst c1. now apply IH.
+  Qed.
+
+  (* A MEMO CACHE OF A PURE FUNCTION IS TRANSPARENT: renders that go through a
+     shared cache of f, under every schedule and from any consistent initial
+     cache (empty in a fresh process, filled by earlier renders otherwise), end
+     with the context the cache-free computation gives *)
+  Theorem memo_cache_transparent (progs : list (C * list (K * (V -> C -> C)))) (sched : list nat) (g0 : @mcache K V) :
+    cache_ok keqb f g0 ->
+    let '(g, ts) := exec sched g0 (start (map (memo_prog keqb f) progs)) in
+    cache_ok keqb f g /\ (finished ts -> map fst ts = map (pure_result f) progs).
+  Proof.
+    intros Hg0.
+    assert (Hb : all_benign (cache_ok keqb f) (map (memo_prog keqb f) progs)).
+    { unfold all_benign. rewrite Forall_forall. intros p Hp. apply in_map_iff in Hp. destruct Hp as [[c kus] [<- _]].
+      cbn [memo_prog snd fst]. rewrite Forall_forall. intros s Hs. apply in_map_iff in Hs. destruct Hs as [[k u] [<- _]].
+      now apply memo_step_benign. }
+    pose proof (benign_noninterference (cache_ok keqb f) g0 [] (map (memo_prog keqb f) progs) sched Hg0 (cache_ok_nil keqb f) Hb) as H.
+    destruct (exec sched g0 (start (map (memo_prog keqb f) progs))) as [g ts]. destruct H as [Hg Hf]. split; [exact Hg|].
+    intros Hfin. rewrite (Hf Hfin), map_map. apply map_ext. intros [c kus]. cbn [memo_prog fst snd pure_result].
+    apply run_alone_memo. apply cache_ok_nil.
+  Qed.
+End MemoTransparent.
+
+(** * J. the two misuses of shared state: a cache whose value is not a function
+    of its key alone, a store through a pointer into a shared table *)
+Theorem ratio_step_local_readonly {K V C G} keqb measure k use :
+  readonly (@ratio_step_local K V C G keqb measure k use).
+Proof. intros g [m c]. cbn. destruct (mlookup keqb m k); reflexivity. Qed.
+
+(* with a cache of its own, filled with its own measures, a render gets its own measure *)
+Theorem ratio_step_local_value {K V C G} keqb measure k use (g : G) m (c : C) :
+  cache_ok keqb measure m ->
+  snd (snd (@ratio_step_local K V C G keqb measure k use g (m, c))) = use (measure k) c.
+Proof.
+  intros Hm. cbn. destruct (mlookup keqb m k) as [v|] eqn:E; cbn; [|reflexivity]. now rewrite (Hm k v E).
+Qed.
+
+(* the shared variant: a second render whose fonts measure the same description
+   differently gets the first render's ratio -- its result depends on history *)
+Theorem ratio_step_shared_refuted :
+  exists (m1 m2 : N -> N) (k : N),
+    let r1 := (0%N, [ratio_step_shared N.eqb m1 k (fun v _ => v)]) in
+    let r2 := (0%N, [ratio_step_shared N.eqb m2 k (fun v _ => v)]) in
+    snd (run_sequentially [] [r1; r2]) <> [snd (run_alone (snd r1) [] 0%N); snd (run_alone (snd r2) [] 0%N)].
+Proof. exists (fun _ => 5%N), (fun _ => 8%N), 1%N. vm_compute. congruence. Qed.
+
+Theorem iterate_copy_readonly id v : readonly (iterate_copy id v).
+Proof. intros g c. reflexivity. Qed.
+
+Theorem iterate_inplace_refuted :
+  exists g id v,
+    let p := (0%N, [iterate_inplace id v]) in
+    snd (run_sequentially g [p; p]) <> [snd (run_alone (snd p) g 0%N); snd (run_alone (snd p) g 0%N)].
+Proof. exists [(3%N, 4%N)], 3%N, 2%N. vm_compute. congruence. Qed.
+
